@@ -269,3 +269,28 @@ Proof.
   intro H. unfold redirect_cid. destruct (find (fun p => Nat.eqb (fst p) c) rd) as [p|] eqn:E; [|reflexivity].
   apply find_some in E as [Hin Eq]. apply Nat.eqb_eq in Eq. exfalso. exact (H p Hin Eq).
 Qed.
+
+(* ---- alias_last_sorting: whatever it does to the column ids, the final ORDER BY keeps the directions of the order in
+   effect (so c03_final_order_any_split speaks about the ORDER BY whose ids are compared with the code), and without any
+   redirect in the context it is the identity *)
+Theorem alias_last_sorting_directions fuel decls rds fs from k :
+  map snd (alias_last_sorting fuel decls rds fs from k) = map snd k.
+Proof.
+  unfold alias_last_sorting. rewrite map_snd_redirect, map_map.
+  induction k as [|cb r IH]; [reflexivity|]. cbn [map]. rewrite IH. f_equal.
+  destruct (revert fuel decls rds (fst cb) []) as [c0 riids]. reflexivity.
+Qed.
+
+Lemma revert_no_redirects fuel decls c riids : revert fuel decls [] c riids = (c, riids).
+Proof.
+  destruct fuel as [|f]; [reflexivity|]. cbn [revert]. destruct (decl_of decls c) as [[riid col|r]|]; reflexivity.
+Qed.
+
+Lemma redirect_sorts_nil k : redirect_sorts [] k = k.
+Proof. induction k as [|[c d] r IH]; [reflexivity|]. unfold redirect_sorts in *. cbn [map fst snd]. rewrite IH. reflexivity. Qed.
+
+Theorem alias_last_sorting_no_redirects fuel decls fs from k : alias_last_sorting fuel decls [] fs from k = k.
+Proof.
+  unfold alias_last_sorting. cbn [rd_of find]. rewrite redirect_sorts_nil.
+  induction k as [|[c d] r IH]; [reflexivity|]. cbn [map fst snd]. rewrite revert_no_redirects. cbn [forward]. rewrite IH. reflexivity.
+Qed.
